@@ -333,3 +333,937 @@ Proof.
     + intros E; inversion E; subst. split; [exact Hwf|]. split; [apply frame_refl|].
       left. split; [right; reflexivity|reflexivity].
 Qed.
+
+Lemma leaf_rule_frame t t1 now o n : frame t t1 -> leaf_rule t1 now o n = leaf_rule t now o n.
+Proof. intros (Hts & Hc & _). unfold leaf_rule. now rewrite Hts, Hc. Qed.
+
+Definition tree_rejected (r : outcome (option notif)) : Prop :=
+  (forall o, r <> Ok o) /\ r <> Err err_stale /\ r <> Err err_future.
+
+Lemma gnmi_update1_spec t now n t' r :
+  wf_tree (t_tree t) -> gnmi_update1 t now n = (t', r) ->
+  wf_tree (t_tree t') /\ frame t t' /\
+  match unit_ok n with
+  | None => t_tree t' = t_tree t /\ tree_rejected r
+  | Some p =>
+      (collision r /\ t_tree t' = t_tree t) \/
+      (~ collision r /\
+       forall q, lookup (t_tree t') q =
+                 if path_eqb q p then leaf_rule t now (lookup (t_tree t) p) n
+                 else lookup (t_tree t) q)
+  end.
+Proof.
+  intros Hwf. unfold gnmi_update1, unit_ok, tree_rejected.
+  destruct (n_upd n) as [|u us] eqn:Hu.
+  { intros E; inversion E; subst. split; [exact Hwf|]. split; [apply frame_refl|].
+    split; [reflexivity|]. repeat split; intros; discriminate. }
+  destruct (unit_index n) as [p|e|w] eqn:Hi.
+  2:{ intros E; inversion E; subst. split; [exact Hwf|]. split; [apply frame_refl|].
+      split; [reflexivity|].
+      (* join_path never returns Err *)
+      exfalso. unfold unit_index in Hi. rewrite Hu in Hi. unfold join_path in Hi.
+      destruct (join_prefix_and_path _ _) eqn:Hj; try discriminate.
+      unfold join_prefix_and_path in Hj. destruct (_ ++ _); discriminate. }
+  2:{ intros E; inversion E; subst. split; [exact Hwf|]. split; [apply frame_refl|].
+      split; [reflexivity|]. repeat split; intros; discriminate. }
+  destruct (update_pre t p u) as [t1 r1] eqn:Hp.
+  destruct (update_pre_frame _ _ _ _ _ Hp) as (Htr & Hf).
+  assert (Hbad : forall w' : outcome (option notif), (forall o, w' <> Ok o) -> w' <> Err err_stale -> w' <> Err err_future ->
+            (t1, w') = (t', r) ->
+            wf_tree (t_tree t') /\ frame t t' /\ t_tree t' = t_tree t /\ tree_rejected r).
+  { intros w' H1 H2 H3 E; inversion E; subst. rewrite Htr. repeat split; auto; apply Hf. }
+  unfold update_pre in Hp. destruct p as [|p0 prest].
+  { inversion Hp; subst. intros E. destruct (Hbad (Panic panic_path0)) as (A & B & C & D); auto; try discriminate. }
+  destruct (negb (String.eqb p0 md_root)) eqn:Hreal.
+  - inversion Hp; subst. intros E.
+    destruct (update_leaf_spec _ _ _ _ _ _ _ Hwf E) as (A & B & C). split; [exact A|]. split; [exact B|exact C].
+  - destruct prest as [|k prest'].
+    { inversion Hp; subst. intros E. destruct (Hbad (Panic panic_path1)) as (A & B & C & D); auto; discriminate. }
+    destruct (meta_val_ok k (u_val u)) eqn:Hok.
+    + destruct (meta_side_effect_ok t k u Hok) as (t1' & Hm). rewrite Hm in Hp. inversion Hp; subst.
+      intros E. assert (Hwf1 : wf_tree (t_tree t1)) by (rewrite Htr; exact Hwf).
+      destruct (update_leaf_spec _ _ _ _ _ _ _ Hwf1 E) as (A & B & C).
+      split; [exact A|]. split; [eapply frame_trans; eauto|].
+      rewrite Htr in C. destruct C as [C|[C1 C2]]; [left; exact C|right]. split; [exact C1|].
+      intros q. rewrite C2. now rewrite (leaf_rule_frame t t1).
+    + pose proof (meta_side_effect_bad t k u t1 r1 Hok Hp) as Hne.
+      destruct r1 as [[]|e|w]; [congruence| |]; intros E.
+      * destruct (Hbad (Err e)) as (A & B & C & D); auto; try discriminate.
+        -- unfold meta_side_effect in Hp.
+           repeat match type of Hp with
+                  | (if ?b then _ else _) = _ => destruct b
+                  | match ?x with _ => _ end = _ => destruct x
+                  end; inversion Hp; discriminate.
+        -- unfold meta_side_effect in Hp.
+           repeat match type of Hp with
+                  | (if ?b then _ else _) = _ => destruct b
+                  | match ?x with _ => _ end = _ => destruct x
+                  end; inversion Hp; discriminate.
+      * destruct (Hbad (Panic w)) as (A & B & C & D); auto; discriminate.
+Qed.
+
+(** * gnmiRemove, one unit *)
+
+Definition del_ok (m : notif) : option path :=
+  match n_del m with
+  | [] => None
+  | d :: _ =>
+      match join_path (n_prefix m) (Some d) with
+      | Ok (p0 :: prest) =>
+          if String.eqb p0 md_root
+          then match prest with [] => None | _ :: _ => Some (p0 :: prest) end
+          else Some (p0 :: prest)
+      | _ => None
+      end
+  end.
+
+Definition older_than (ts : Z) (v : notif) : bool := Z.ltb (n_ts v) ts.
+
+Lemma gnmi_remove_spec t n t' r :
+  wf_tree (t_tree t) -> gnmi_remove t n = (t', r) ->
+  wf_tree (t_tree t') /\ frame t t' /\
+  match del_ok n with
+  | None => t_tree t' = t_tree t /\ (forall l, r <> Ok l)
+  | Some p =>
+      (forall s, lookup (t_tree t') s = sel p (older_than (n_ts n)) (lookup (t_tree t) s) s) /\
+      exists removed, r = Ok removed /\
+        forall v, In v removed <->
+                  exists s, lookup (t_tree t) s = Some v /\ qmatch p s = true /\ older_than (n_ts n) v = true
+  end.
+Proof.
+  intros Hwf. unfold gnmi_remove, del_ok.
+  destruct (n_del n) as [|d ds].
+  { intros E; inversion E; subst. split; [exact Hwf|]. split; [apply frame_refl|].
+    split; [reflexivity|intros; discriminate]. }
+  destruct (join_path (n_prefix n) (Some d)) as [p|e|w] eqn:Hj.
+  2:{ intros E; inversion E; subst. split; [exact Hwf|]. split; [apply frame_refl|]. split; [reflexivity|intros; discriminate]. }
+  2:{ intros E; inversion E; subst. split; [exact Hwf|]. split; [apply frame_refl|]. split; [reflexivity|intros; discriminate]. }
+  destruct p as [|p0 prest].
+  { intros E; inversion E; subst. split; [exact Hwf|]. split; [apply frame_refl|]. split; [reflexivity|intros; discriminate]. }
+  assert (Hmain : forall t1, t_tree t1 = t_tree t -> frame t t1 ->
+    (let r := delete_cond (t_tree t1) (p0 :: prest) (fun v => Z.ltb (n_ts v) (n_ts n)) in
+     let removed := map snd (snd r) in
+     let t2 := set_tree t1 (fst r) in
+     match removed with
+     | [] => (t2, Ok [])
+     | _ :: _ => let k := Z.of_nat (List.length removed) in
+                 (add_int (add_int t2 md_leaf_count (- k)) md_del_count k, Ok removed)
+     end) = (t', r) ->
+    wf_tree (t_tree t') /\ frame t t' /\
+    (forall s, lookup (t_tree t') s = sel (p0 :: prest) (older_than (n_ts n)) (lookup (t_tree t) s) s) /\
+    exists removed, r = Ok removed /\
+      forall v, In v removed <->
+        exists s, lookup (t_tree t) s = Some v /\ qmatch (p0 :: prest) s = true /\ older_than (n_ts n) v = true).
+  { intros t1 Htr Hf. cbv zeta. rewrite Htr.
+    destruct (tree_delete_spec (t_tree t) (p0 :: prest) (fun v => Z.ltb (n_ts v) (n_ts n)) Hwf)
+      as (Hw & Hl & Hin & _).
+    assert (Hrem : forall v, In v (map snd (snd (delete_cond (t_tree t) (p0 :: prest) (fun v => Z.ltb (n_ts v) (n_ts n))))) <->
+               exists s, lookup (t_tree t) s = Some v /\ qmatch (p0 :: prest) s = true /\ older_than (n_ts n) v = true).
+    { intros v. rewrite in_map_iff. split.
+      - intros ([s v'] & <- & Hi). exists s. now apply Hin.
+      - intros (s & Hs). exists (s, v). split; [reflexivity|]. now apply Hin. }
+    destruct (map snd (snd (delete_cond (t_tree t) (p0 :: prest) (fun v => Z.ltb (n_ts v) (n_ts n))))) as [|x l] eqn:Hm;
+      intros E; inversion E; subst; clear E.
+    - split; [exact Hw|]. split; [destruct Hf as (A & B & C); repeat split; assumption|].
+      split; [exact Hl|]. exists []. split; [reflexivity|exact Hrem].
+    - split; [exact Hw|]. split; [destruct Hf as (A & B & C); repeat split; assumption|].
+      split; [exact Hl|]. exists (x :: l). split; [reflexivity|exact Hrem]. }
+  destruct (String.eqb p0 md_root).
+  - destruct prest as [|k prest'].
+    + intros E; inversion E; subst. split; [exact Hwf|]. split; [apply frame_refl|]. split; [reflexivity|intros; discriminate].
+    + apply Hmain; [reflexivity|repeat split].
+  - apply Hmain; [reflexivity|apply frame_refl].
+Qed.
+
+(** * Units and events of a notification *)
+
+Inductive unit_ev := UUpd (m : notif) | UDel (m : notif).
+
+(** the units Target.GnmiUpdate processes, in order (its dispatch) *)
+Definition units (n : notif) : list unit_ev :=
+  if n_atomic n then
+    match n_del n, n_upd n with
+    | [], _ :: _ => [UUpd n]
+    | _, _ => []
+    end
+  else
+    match n_upd n, n_del n with
+    | [], [] => []
+    | [_], [] => [UUpd n]
+    | [], [_] => [UDel n]
+    | us, ds => map (fun u => UUpd (clone_with_update n u)) us ++
+                map (fun d => UDel (clone_with_delete n d)) ds
+    end.
+
+(** the events of one unit that concern the index path [q] *)
+Definition unit_events (latest : option Z) (now : Z) (q : path) (e : unit_ev) : list lev :=
+  match e with
+  | UUpd m => match unit_ok m with
+              | Some p => if path_eqb q p then [LUpd now latest m] else []
+              | None => []
+              end
+  | UDel m => match del_ok m with
+              | Some p => if qmatch p q then [LDel (n_ts m)] else []
+              | None => []
+              end
+  end.
+
+Definition notif_events (latest : option Z) (now : Z) (q : path) (n : notif) : list lev :=
+  flat_map (unit_events latest now q) (units n).
+
+Definition thr_of (t : target) : Z := cfg_future_threshold (t_cfg t).
+
+Lemma unit_upd_events t now m t' r :
+  wf_tree (t_tree t) -> gnmi_update1 t now m = (t', r) -> ~ collision r ->
+  forall q, lookup (t_tree t') q =
+            fold_left (spec_leaf_step (thr_of t)) (unit_events (t_ts t) now q (UUpd m)) (lookup (t_tree t) q).
+Proof.
+  intros Hwf E Hnc q. destruct (gnmi_update1_spec _ _ _ _ _ Hwf E) as (_ & _ & H).
+  cbn [unit_events]. destruct (unit_ok m) as [p|].
+  - destruct H as [[Hc _]|[_ H]]; [contradiction|]. rewrite H.
+    destruct (path_eqb_spec q p) as [->|]; reflexivity.
+  - destruct H as [-> _]. reflexivity.
+Qed.
+
+Lemma unit_del_events t m t' r :
+  wf_tree (t_tree t) -> gnmi_remove t m = (t', r) ->
+  forall q latest now, lookup (t_tree t') q =
+            fold_left (spec_leaf_step (thr_of t)) (unit_events latest now q (UDel m)) (lookup (t_tree t) q).
+Proof.
+  intros Hwf E q latest now. destruct (gnmi_remove_spec _ _ _ _ Hwf E) as (_ & _ & H).
+  cbn [unit_events]. destruct (del_ok m) as [p|].
+  - destruct H as [H _]. rewrite H. unfold sel, older_than.
+    destruct (qmatch p q); cbn [fold_left spec_leaf_step andb].
+    + destruct (lookup (t_tree t) q) as [v|]; [|reflexivity]. now destruct (Z.ltb (n_ts v) (n_ts m)).
+    + now destruct (lookup (t_tree t) q).
+  - destruct H as [-> _]. reflexivity.
+Qed.
+
+(** * Target.GnmiUpdate, one notification *)
+
+Definition clean_cls (e : N) : Prop := e <> err_collision /\ e <> err_add.
+
+(** the call neither panicked nor refused a unit for a schema collision *)
+Definition clean (r : gres) : Prop :=
+  match r with
+  | GOk => True
+  | GErr e => clean_cls e
+  | GErrs es => Forall clean_cls es
+  | GPanic _ => False
+  end.
+
+Lemma finish_ts_tree n b t : t_tree (finish_ts n b t) = t_tree t.
+Proof.
+  unfold finish_ts, check_timestamp. destruct (tracks_ts n && b); [|reflexivity].
+  destruct (t_ts t) as [z|]; [destruct (Z.ltb z (n_ts n))|]; reflexivity.
+Qed.
+
+Lemma finish_ts_cfg n b t : t_cfg (finish_ts n b t) = t_cfg t /\ t_name (finish_ts n b t) = t_name t.
+Proof.
+  unfold finish_ts, check_timestamp. destruct (tracks_ts n && b); [|split; reflexivity].
+  destruct (t_ts t) as [z|]; [destruct (Z.ltb z (n_ts n))|]; split; reflexivity.
+Qed.
+
+Definition lookup_after (t : target) (now : Z) (q : path) (us : list unit_ev) (o : option notif) :=
+  fold_left (spec_leaf_step (thr_of t)) (flat_map (unit_events (t_ts t) now q) us) o.
+
+Lemma lookup_after_app t now q us1 us2 o :
+  lookup_after t now q (us1 ++ us2) o = lookup_after t now q us2 (lookup_after t now q us1 o).
+Proof. unfold lookup_after. now rewrite flat_map_app, fold_left_app. Qed.
+
+Lemma flat_map_single {A B} (f : A -> list B) x : flat_map f [x] = f x.
+Proof. cbn. apply app_nil_r. Qed.
+
+Lemma lookup_after_single t now q e o :
+  lookup_after t now q [e] o = fold_left (spec_leaf_step (thr_of t)) (unit_events (t_ts t) now q e) o.
+Proof. unfold lookup_after. now rewrite flat_map_single. Qed.
+
+(** ** the two loops of a multi notification *)
+
+Lemma multi_update_panic_sticky now n us : forall a w,
+  a_panic a = Some w -> fold_left (multi_update_step now n) us a = a.
+Proof.
+  induction us as [|u us IH]; intros a w Hp; cbn [fold_left]; [reflexivity|].
+  assert (E : multi_update_step now n a u = a) by (unfold multi_update_step; now rewrite Hp).
+  rewrite E. eapply IH; eauto.
+Qed.
+
+Lemma multi_delete_panic_sticky n ds : forall a w,
+  a_panic a = Some w -> fold_left (multi_delete_step n) ds a = a.
+Proof.
+  induction ds as [|d ds IH]; intros a w Hp; cbn [fold_left]; [reflexivity|].
+  assert (E : multi_delete_step n a d = a) by (unfold multi_delete_step; now rewrite Hp).
+  rewrite E. eapply IH; eauto.
+Qed.
+
+Lemma multi_update_errs now n us : forall a,
+  exists l, a_errs (fold_left (multi_update_step now n) us a) = a_errs a ++ l.
+Proof.
+  induction us as [|u us IH]; intros a; cbn [fold_left]; [exists []; now rewrite app_nil_r|].
+  destruct (IH (multi_update_step now n a u)) as (l & Hl). rewrite Hl.
+  unfold multi_update_step. destruct (a_panic a); [eauto|].
+  destruct (gnmi_update1 (a_t a) now (clone_with_update n u)) as [t' [[nd|]|e|w]]; cbn [a_errs]; eauto.
+  exists ([e] ++ l). now rewrite app_assoc.
+Qed.
+
+Lemma multi_delete_errs n ds : forall a,
+  exists l, a_errs (fold_left (multi_delete_step n) ds a) = a_errs a ++ l.
+Proof.
+  induction ds as [|d ds IH]; intros a; cbn [fold_left]; [exists []; now rewrite app_nil_r|].
+  destruct (IH (multi_delete_step n a d)) as (l & Hl). rewrite Hl.
+  unfold multi_delete_step. destruct (a_panic a); [eauto|].
+  destruct (gnmi_remove _ _) as [t' [rm|e|w]]; cbn [a_errs]; eauto.
+  exists ([e] ++ l). now rewrite app_assoc.
+Qed.
+
+Lemma Forall_app_l {A} (P : A -> Prop) l1 l2 : Forall P (l1 ++ l2) -> Forall P l1.
+Proof. rewrite Forall_app. tauto. Qed.
+
+Lemma multi_updates_spec now n us : forall a,
+  a_panic a = None -> wf_tree (t_tree (a_t a)) ->
+  let a' := fold_left (multi_update_step now n) us a in
+  a_panic a' = None -> Forall clean_cls (a_errs a') ->
+  wf_tree (t_tree (a_t a')) /\ frame (a_t a) (a_t a') /\
+  forall q, lookup (t_tree (a_t a')) q =
+            lookup_after (a_t a) now q (map (fun u => UUpd (clone_with_update n u)) us)
+                         (lookup (t_tree (a_t a)) q).
+Proof.
+  induction us as [|u us IH]; intros a Hp Hwf; cbn [fold_left map].
+  - intros _ _. split; [exact Hwf|]. split; [apply frame_refl|]. reflexivity.
+  - intros Hp' Hcl.
+    set (a1 := multi_update_step now n a u) in *.
+    assert (Hp1 : a_panic a1 = None).
+    { destruct (a_panic a1) as [w|] eqn:E; [|reflexivity].
+      rewrite (multi_update_panic_sticky now n us a1 w E) in Hp'. congruence. }
+    assert (Hcl1 : Forall clean_cls (a_errs a1)).
+    { destruct (multi_update_errs now n us a1) as (l & Hl). rewrite Hl in Hcl. eapply Forall_app_l; eauto. }
+    assert (Hstep : wf_tree (t_tree (a_t a1)) /\ frame (a_t a) (a_t a1) /\
+              forall q, lookup (t_tree (a_t a1)) q =
+                        lookup_after (a_t a) now q [UUpd (clone_with_update n u)] (lookup (t_tree (a_t a)) q)).
+    { subst a1. unfold multi_update_step in *. rewrite Hp in *.
+      destruct (gnmi_update1 (a_t a) now (clone_with_update n u)) as [t' r] eqn:E.
+      destruct (gnmi_update1_spec _ _ _ _ _ Hwf E) as (Hw' & Hf' & _).
+      assert (Hnc : ~ collision r).
+      { destruct r as [o|e|w]; [intros [H|H]; discriminate| |cbn in Hp1; discriminate].
+        cbn [a_errs] in Hcl1. apply Forall_app in Hcl1 as [_ Hc]. inversion Hc as [|? ? [H1 H2] _]; subst.
+        intros [H|H]; inversion H; congruence. }
+      pose proof (unit_upd_events _ _ _ _ _ Hwf E Hnc) as Hev.
+      assert (Hev' : forall q, lookup (t_tree t') q =
+                 lookup_after (a_t a) now q [UUpd (clone_with_update n u)] (lookup (t_tree (a_t a)) q))
+        by (intros q; rewrite lookup_after_single; apply Hev).
+      clear Hev; rename Hev' into Hev.
+      destruct r as [[nd|]|e|w]; cbn [a_t]; try (split; [exact Hw'|split; [exact Hf'|exact Hev]]). }
+    destruct Hstep as (Hw1 & Hf1 & Hl1).
+    destruct (IH a1 Hp1 Hw1 Hp' Hcl) as (Hw2 & Hf2 & Hl2).
+    split; [exact Hw2|]. split; [eapply frame_trans; eauto|].
+    intros q. rewrite Hl2, Hl1.
+    change (UUpd (clone_with_update n u) :: map (fun u0 => UUpd (clone_with_update n u0)) us)
+      with ([UUpd (clone_with_update n u)] ++ map (fun u0 => UUpd (clone_with_update n u0)) us).
+    rewrite lookup_after_app. unfold lookup_after, thr_of.
+    destruct Hf1 as (Hts & Hc & _). now rewrite Hts, Hc.
+Qed.
+
+Lemma multi_deletes_spec now n ds : forall a,
+  a_panic a = None -> wf_tree (t_tree (a_t a)) ->
+  let a' := fold_left (multi_delete_step n) ds a in
+  a_panic a' = None ->
+  wf_tree (t_tree (a_t a')) /\ frame (a_t a) (a_t a') /\
+  forall q, lookup (t_tree (a_t a')) q =
+            lookup_after (a_t a) now q (map (fun d => UDel (clone_with_delete n d)) ds)
+                         (lookup (t_tree (a_t a)) q).
+Proof.
+  induction ds as [|d ds IH]; intros a Hp Hwf; cbn [fold_left map].
+  - intros _. split; [exact Hwf|]. split; [apply frame_refl|]. reflexivity.
+  - intros Hp'.
+    set (a1 := multi_delete_step n a d) in *.
+    assert (Hp1 : a_panic a1 = None).
+    { destruct (a_panic a1) as [w|] eqn:E; [|reflexivity].
+      rewrite (multi_delete_panic_sticky n ds a1 w E) in Hp'. congruence. }
+    assert (Hstep : wf_tree (t_tree (a_t a1)) /\ frame (a_t a) (a_t a1) /\
+              forall q, lookup (t_tree (a_t a1)) q =
+                        lookup_after (a_t a) now q [UDel (clone_with_delete n d)] (lookup (t_tree (a_t a)) q)).
+    { subst a1. unfold multi_delete_step in *. rewrite Hp in *.
+      destruct (gnmi_remove (add_int (a_t a) md_update_count 1) (clone_with_delete n d)) as [t' r] eqn:E.
+      assert (Hwf0 : wf_tree (t_tree (add_int (a_t a) md_update_count 1))) by exact Hwf.
+      destruct (gnmi_remove_spec _ _ _ _ Hwf0 E) as (Hw' & Hf' & _).
+      pose proof (unit_del_events _ _ _ _ Hwf0 E) as Hev.
+      assert (Hf'' : frame (a_t a) t') by (eapply frame_trans; [apply frame_add_int|exact Hf']).
+      assert (Hev' : forall q, lookup (t_tree t') q =
+                 lookup_after (a_t a) now q [UDel (clone_with_delete n d)] (lookup (t_tree (a_t a)) q))
+        by (intros q; rewrite lookup_after_single; apply (Hev q)).
+      destruct r as [rm|e|w]; cbn [a_t]; try (split; [exact Hw'|split; [exact Hf''|exact Hev']]). }
+    destruct Hstep as (Hw1 & Hf1 & Hl1).
+    destruct (IH a1 Hp1 Hw1 Hp') as (Hw2 & Hf2 & Hl2).
+    split; [exact Hw2|]. split; [eapply frame_trans; eauto|].
+    intros q. rewrite Hl2, Hl1.
+    change (UDel (clone_with_delete n d) :: map (fun d0 => UDel (clone_with_delete n d0)) ds)
+      with ([UDel (clone_with_delete n d)] ++ map (fun d0 => UDel (clone_with_delete n d0)) ds).
+    rewrite lookup_after_app. unfold lookup_after, thr_of.
+    destruct Hf1 as (Hts & Hc & _). now rewrite Hts, Hc.
+Qed.
+
+Lemma single_update_case t now n k t' fd r :
+  wf_tree (t_tree t) ->
+  match gnmi_update1 t now n with
+  | (t1, Panic w) => (finish_ts n false t1, [], GPanic w)
+  | (t1, Err e) => (finish_ts n false t1, [], GErr e)
+  | (t1, Ok None) => (finish_ts n true t1, [], GOk)
+  | (t1, Ok (Some nd)) => (finish_ts n true (add_int t1 md_update_count k), [FUpd nd], GOk)
+  end = (t', fd, r) ->
+  clean r ->
+  wf_tree (t_tree t') /\ t_cfg t' = t_cfg t /\ t_name t' = t_name t /\
+  forall q, lookup (t_tree t') q = lookup_after t now q [UUpd n] (lookup (t_tree t) q).
+Proof.
+  intros Hwf. destruct (gnmi_update1 t now n) as [t1 r1] eqn:E.
+  destruct (gnmi_update1_spec _ _ _ _ _ Hwf E) as (Hw1 & (Hts & Hc & Hn) & _).
+  intros E2 Hcl.
+  assert (Hnc : ~ collision r1).
+  { destruct r1 as [[nd|]|e|w]; inversion E2; subst; cbn in Hcl.
+    - intros [H|H]; discriminate.
+    - intros [H|H]; discriminate.
+    - destruct Hcl as [H1 H2]. intros [H|H]; inversion H; congruence.
+    - contradiction. }
+  pose proof (unit_upd_events _ _ _ _ _ Hwf E Hnc) as Hev.
+  destruct r1 as [[nd|]|e|w]; inversion E2; subst; clear E2;
+    rewrite finish_ts_tree; destruct (finish_ts_cfg n true t1) as [A B];
+    destruct (finish_ts_cfg n false t1) as [A' B'];
+    destruct (finish_ts_cfg n true (add_int t1 md_update_count k)) as [A'' B''];
+    change (t_cfg (add_int t1 md_update_count k)) with (t_cfg t1) in A'';
+    change (t_name (add_int t1 md_update_count k)) with (t_name t1) in B'';
+    (split; [assumption|]); (split; [congruence|]); (split; [congruence|]);
+    intros q; rewrite lookup_after_single; apply Hev.
+Qed.
+
+
+Lemma multi_case t now n us ds t' fd r :
+  wf_tree (t_tree t) ->
+  (let a0 := Acc t [] [] false None in
+   let a1 := fold_left (multi_update_step now n) us a0 in
+   let a2 := fold_left (multi_delete_step n) ds a1 in
+   (finish_ts n (a_ok a2) (a_t a2), a_feed a2,
+    match a_panic a2 with
+    | Some w => GPanic w
+    | None => match a_errs a2 with [] => GOk | es => GErrs es end
+    end)) = (t', fd, r) ->
+  clean r ->
+  wf_tree (t_tree t') /\ t_cfg t' = t_cfg t /\ t_name t' = t_name t /\
+  forall q, lookup (t_tree t') q =
+            lookup_after t now q (map (fun u => UUpd (clone_with_update n u)) us ++
+                                  map (fun d => UDel (clone_with_delete n d)) ds)
+                         (lookup (t_tree t) q).
+Proof.
+  intros Hwf. cbv zeta.
+  set (a0 := Acc t [] [] false None).
+  remember (fold_left (multi_update_step now n) us a0) as a1 eqn:Ha1.
+  remember (fold_left (multi_delete_step n) ds a1) as a2 eqn:Ha2.
+  intros E Hcl. inversion E; subst t' fd r; clear E.
+  assert (Hp2 : a_panic a2 = None) by (destruct (a_panic a2); [contradiction|reflexivity]).
+  assert (Hp1 : a_panic a1 = None).
+  { destruct (a_panic a1) as [w|] eqn:Ep; [|reflexivity].
+    rewrite Ha2, (multi_delete_panic_sticky n ds a1 w Ep) in Hp2. congruence. }
+  assert (Hcl1 : Forall clean_cls (a_errs a1)).
+  { destruct (multi_delete_errs n ds a1) as (l & Hl). rewrite <- Ha2 in Hl.
+    rewrite Hp2 in Hcl. destruct (a_errs a2) as [|e es] eqn:Ee.
+    - destruct (a_errs a1); [constructor|discriminate].
+    - cbn in Hcl. rewrite Hl in Hcl. eapply Forall_app_l; eauto. }
+  rewrite Ha1 in Hp1, Hcl1.
+  destruct (multi_updates_spec now n us a0 eq_refl Hwf Hp1 Hcl1) as (Hw1 & Hf1 & Hl1).
+  rewrite <- Ha1 in *. rewrite Ha2 in Hp2.
+  destruct (multi_deletes_spec now n ds a1 Hp1 Hw1 Hp2) as (Hw2 & Hf2 & Hl2).
+  rewrite <- Ha2 in *. rewrite finish_ts_tree. destruct (finish_ts_cfg n (a_ok a2) (a_t a2)) as [A B].
+  destruct (frame_trans _ _ _ Hf1 Hf2) as (Hts & Hc & Hn). cbn [a_t a0] in Hts, Hc, Hn.
+  split; [exact Hw2|]. split; [rewrite A; exact Hc|]. split; [rewrite B; exact Hn|].
+  intros q. rewrite Hl2, Hl1. rewrite lookup_after_app. cbn [a_t a0].
+  unfold lookup_after, thr_of. destruct Hf1 as (Hts1 & Hc1 & _). cbn [a_t a0] in Hts1, Hc1.
+  now rewrite Hts1, Hc1.
+Qed.
+
+(** every notification acts on every leaf as the fold of its events *)
+Theorem notif_leaf t now n t' fd r :
+  wf_tree (t_tree t) -> target_gnmi_update t now n = (t', fd, r) -> clean r ->
+  wf_tree (t_tree t') /\ t_cfg t' = t_cfg t /\ t_name t' = t_name t /\
+  forall q, lookup (t_tree t') q = lookup_after t now q (units n) (lookup (t_tree t) q).
+Proof.
+  intros Hwf. unfold target_gnmi_update, units.
+  destruct (n_atomic n).
+  - destruct (n_del n) as [|d ds].
+    + destruct (n_upd n) as [|u us] eqn:Hu.
+      * intros E _; inversion E; subst. repeat split; auto.
+      * apply single_update_case; exact Hwf.
+    + intros E _; inversion E; subst. repeat split; auto.
+  - destruct (n_upd n) as [|u [|u2 us]] eqn:Hu; destruct (n_del n) as [|d [|d2 ds]] eqn:Hd.
+    + intros E _; inversion E; subst. repeat split; auto.
+    + (* single delete *)
+      destruct (gnmi_remove (add_int t md_update_count 1) n) as [t1 r1] eqn:E.
+      assert (Hwf0 : wf_tree (t_tree (add_int t md_update_count 1))) by exact Hwf.
+      destruct (gnmi_remove_spec _ _ _ _ Hwf0 E) as (Hw1 & (Hts & Hc & Hn) & _).
+      pose proof (unit_del_events _ _ _ _ Hwf0 E) as Hev.
+      intros E2 Hcl. destruct r1 as [rm|e|w]; inversion E2; subst; clear E2;
+        (split; [assumption|]); (split; [exact Hc|]); (split; [exact Hn|]);
+        intros q; rewrite lookup_after_single; apply (Hev q).
+    + apply (multi_case t now n [] (d :: d2 :: ds)); exact Hwf.
+    + apply single_update_case; exact Hwf.
+    + apply (multi_case t now n [u] [d]); exact Hwf.
+    + apply (multi_case t now n [u] (d :: d2 :: ds)); exact Hwf.
+    + apply (multi_case t now n (u :: u2 :: us) []); exact Hwf.
+    + apply (multi_case t now n (u :: u2 :: us) [d]); exact Hwf.
+    + apply (multi_case t now n (u :: u2 :: us) (d :: d2 :: ds)); exact Hwf.
+Qed.
+
+(** * Histories *)
+
+Definition hist := list (Z * notif).     (* clock reading, notification *)
+
+Definition tstep (t : target) (h : Z * notif) : target :=
+  fst (fst (target_gnmi_update t (fst h) (snd h))).
+
+Definition tres (t : target) (h : Z * notif) : gres :=
+  snd (target_gnmi_update t (fst h) (snd h)).
+
+Definition trun (t : target) (H : hist) : target := fold_left tstep H t.
+
+(** no call of the history panicked or refused a unit for a schema collision
+    (a path through a stored leaf, or onto a stored branch) *)
+Fixpoint clean_history (t : target) (H : hist) : Prop :=
+  match H with
+  | [] => True
+  | h :: H' => clean (tres t h) /\ clean_history (tstep t h) H'
+  end.
+
+(** the events of a history that concern the index path [q]; the latest
+    accepted timestamp each update is judged against is the target's
+    ([t_ts], characterised by [latest_step] below) *)
+Fixpoint project (t : target) (H : hist) (q : path) : list lev :=
+  match H with
+  | [] => []
+  | h :: H' => notif_events (t_ts t) (fst h) q (snd h) ++ project (tstep t h) H' q
+  end.
+
+Lemma tstep_spec t h :
+  wf_tree (t_tree t) -> clean (tres t h) ->
+  wf_tree (t_tree (tstep t h)) /\ t_cfg (tstep t h) = t_cfg t /\ t_name (tstep t h) = t_name t /\
+  forall q, lookup (t_tree (tstep t h)) q =
+            fold_left (spec_leaf_step (thr_of t)) (notif_events (t_ts t) (fst h) q (snd h)) (lookup (t_tree t) q).
+Proof.
+  intros Hwf Hcl. unfold tstep, tres in *.
+  destruct (target_gnmi_update t (fst h) (snd h)) as [[t' fd] r] eqn:E. cbn [fst snd] in *.
+  exact (notif_leaf _ _ _ _ _ _ Hwf E Hcl).
+Qed.
+
+Theorem leaf_holds_newest_from t H : forall q,
+  wf_tree (t_tree t) -> clean_history t H ->
+  lookup (t_tree (trun t H)) q =
+  fold_left (spec_leaf_step (thr_of t)) (project t H q) (lookup (t_tree t) q).
+Proof.
+  revert t. induction H as [|h H IH]; intros t q Hwf Hcl; cbn [trun fold_left project]; [reflexivity|].
+  destruct Hcl as [Hc1 Hc2].
+  destruct (tstep_spec t h Hwf Hc1) as (Hw & Hcfg & _ & Hl).
+  fold (trun (tstep t h) H). rewrite (IH (tstep t h) q Hw Hc2).
+  rewrite fold_left_app, Hl. unfold thr_of. now rewrite Hcfg.
+Qed.
+
+(** C02, the refinement: for every history on a fresh target and every index
+    path, the leaf holds what the four-line recursion computes from the events
+    that concern that path *)
+Theorem leaf_holds_newest name cfg (H : hist) (q : path) :
+  clean_history (new_target name cfg) H ->
+  lookup (t_tree (trun (new_target name cfg) H)) q =
+  spec_leaf (cfg_future_threshold cfg) (project (new_target name cfg) H q).
+Proof.
+  intros Hcl. unfold spec_leaf.
+  exact (leaf_holds_newest_from (new_target name cfg) H q I Hcl).
+Qed.
+
+(** the leaf is a function of the events that concern it: a history with no
+    event for [q] leaves [q] alone *)
+Corollary untouched_leaf_unchanged t H q :
+  wf_tree (t_tree t) -> clean_history t H -> project t H q = [] ->
+  lookup (t_tree (trun t H)) q = lookup (t_tree t) q.
+Proof. intros Hwf Hcl Hp. rewrite (leaf_holds_newest_from t H q Hwf Hcl), Hp. reflexivity. Qed.
+
+(** * The clauses of C02, one call at a time *)
+
+(** a plain (non-metadata) unit reaches the leaf switch with the state as it
+    was *)
+Lemma gnmi_update1_real t now n u us p :
+  n_upd n = u :: us -> unit_index n = Ok p -> p <> [] -> is_real p = true ->
+  gnmi_update1 t now n = update_leaf t now p u n.
+Proof.
+  intros Hu Hi Hne Hr. unfold gnmi_update1. rewrite Hu, Hi. unfold update_pre.
+  destruct p as [|p0 prest]; [congruence|]. cbn [is_real] in Hr. now rewrite Hr.
+Qed.
+
+(** older than the stored notification, or identical to it: ErrStale, and
+    nothing changes except the stale counter; nothing is handed to the client *)
+Theorem stale_rejected_noop t now n u us p old :
+  n_upd n = u :: us -> unit_index n = Ok p -> p <> [] -> is_real p = true ->
+  lookup (t_tree t) p = Some old ->
+  (n_ts n < n_ts old \/ (n_ts n = n_ts old /\ notif_eqb old n = true)) ->
+  gnmi_update1 t now n = (add_int t md_stale_count 1, Err err_stale).
+Proof.
+  intros Hu Hi Hne Hr Hl Hts. rewrite (gnmi_update1_real t now n u us p Hu Hi Hne Hr).
+  unfold update_leaf. rewrite (proj2 (get_leaf_lookup _ _ _) Hl). unfold leaf_verdict.
+  destruct Hts as [Hlt|[Heq Hsame]].
+  - apply Z.ltb_lt in Hlt. now rewrite Hlt.
+  - rewrite Heq, Z.ltb_irrefl, Z.eqb_refl, Hsame. reflexivity.
+Qed.
+
+(** same timestamp, different content: the later arrival replaces the stored one *)
+Theorem equal_ts_replaces t now n u us p old t' r :
+  wf_tree (t_tree t) ->
+  n_upd n = u :: us -> unit_index n = Ok p -> p <> [] -> is_real p = true ->
+  lookup (t_tree t) p = Some old ->
+  n_ts n = n_ts old -> notif_eqb old n = false ->
+  gnmi_update1 t now n = (t', r) ->
+  r <> Err err_stale /\ r <> Err err_future /\ ~ collision r /\
+  lookup (t_tree t') p = Some n /\
+  forall q, q <> p -> lookup (t_tree t') q = lookup (t_tree t) q.
+Proof.
+  intros Hwf Hu Hi Hne Hr Hl Heq Hdiff E.
+  rewrite (gnmi_update1_real t now n u us p Hu Hi Hne Hr) in E.
+  destruct (update_leaf_spec _ _ _ _ _ _ _ Hwf E) as (_ & _ & Hs).
+  assert (Hv : leaf_verdict t now old n = None).
+  { unfold leaf_verdict. now rewrite Heq, Z.ltb_irrefl, Z.eqb_refl, Hdiff. }
+  assert (Hr' : r <> Err err_stale /\ r <> Err err_future /\ ~ collision r).
+  { unfold update_leaf in E. rewrite (proj2 (get_leaf_lookup _ _ _) Hl), Hv in E.
+    destruct (n_atomic n); [inversion E; repeat split; try discriminate; intros [H|H]; discriminate|].
+    destruct (n_upd old); [inversion E; repeat split; try discriminate; intros [H|H]; discriminate|].
+    match type of E with (if ?b then _ else _) = _ => destruct b end;
+      inversion E; repeat split; try discriminate; intros [H|H]; discriminate. }
+  destruct Hr' as (A & B & C). repeat split; auto.
+  - destruct Hs as [[Hc _]|[_ Hs]]; [contradiction|]. rewrite Hs, path_eqb_refl.
+    unfold leaf_rule. rewrite Hl, <- leaf_verdict_spec, Hv. reflexivity.
+  - intros q Hq. destruct Hs as [[Hc _]|[_ Hs]]; [contradiction|]. rewrite Hs.
+    destruct (path_eqb_spec q p); [contradiction|reflexivity].
+Qed.
+
+(** the future guard, exactly as the code implements it: an update to an
+    EXISTING leaf, strictly newer than it, further ahead of the clock than a
+    configured threshold, while a latest accepted timestamp > 0 is known and
+    the update is further ahead of that too: ErrFuture, and nothing changes
+    except the future counter *)
+Theorem future_rejected_noop t now n u us p old :
+  n_upd n = u :: us -> unit_index n = Ok p -> p <> [] -> is_real p = true ->
+  lookup (t_tree t) p = Some old ->
+  n_ts old < n_ts n ->
+  future_guard (thr_of t) now (t_ts t) (n_ts n) = true ->
+  gnmi_update1 t now n = (add_int t md_future_count 1, Err err_future).
+Proof.
+  intros Hu Hi Hne Hr Hl Hlt Hg. rewrite (gnmi_update1_real t now n u us p Hu Hi Hne Hr).
+  unfold update_leaf. rewrite (proj2 (get_leaf_lookup _ _ _) Hl). unfold leaf_verdict.
+  assert (H1 : Z.ltb (n_ts n) (n_ts old) = false) by (apply Z.ltb_ge; lia).
+  assert (H2 : Z.eqb (n_ts n) (n_ts old) = false) by (apply Z.eqb_neq; lia).
+  rewrite H1, H2, future_rejected_guard. unfold thr_of in Hg. rewrite Hg. reflexivity.
+Qed.
+
+(** ... and the guard is exact: a strictly newer update for which the guard
+    is false is stored; a NEW leaf is never subject to it *)
+Theorem newer_accepted t now n u us p t' r :
+  wf_tree (t_tree t) ->
+  n_upd n = u :: us -> unit_index n = Ok p -> p <> [] -> is_real p = true ->
+  (lookup (t_tree t) p = None \/
+   exists old, lookup (t_tree t) p = Some old /\ n_ts old < n_ts n /\
+               future_guard (thr_of t) now (t_ts t) (n_ts n) = false) ->
+  gnmi_update1 t now n = (t', r) -> ~ collision r ->
+  lookup (t_tree t') p = Some n.
+Proof.
+  intros Hwf Hu Hi Hne Hr Hcase E Hnc.
+  rewrite (gnmi_update1_real t now n u us p Hu Hi Hne Hr) in E.
+  destruct (update_leaf_spec _ _ _ _ _ _ _ Hwf E) as (_ & _ & [[Hc _]|[_ Hs]]); [contradiction|].
+  rewrite Hs, path_eqb_refl. unfold leaf_rule. destruct Hcase as [Hl|(old & Hl & Hlt & Hg)]; rewrite Hl.
+  - reflexivity.
+  - cbn [spec_leaf_step].
+    assert (H1 : Z.ltb (n_ts n) (n_ts old) = false) by (apply Z.ltb_ge; lia).
+    assert (H2 : Z.eqb (n_ts n) (n_ts old) = false) by (apply Z.eqb_neq; lia).
+    unfold thr_of in Hg. now rewrite H1, H2, Hg.
+Qed.
+
+(** an update whose path runs through a stored leaf or ends on a stored branch
+    is refused and changes nothing at all *)
+Theorem collision_rejected_noop t now n u us p t' r :
+  n_upd n = u :: us -> unit_index n = Ok p -> p <> [] -> is_real p = true ->
+  gnmi_update1 t now n = (t', r) -> collision r -> t' = t.
+Proof.
+  intros Hu Hi Hne Hr E Hc. rewrite (gnmi_update1_real t now n u us p Hu Hi Hne Hr) in E.
+  unfold update_leaf in E.
+  destruct (CTreeModel.get (t_tree t) p) as [[old|cs]|].
+  - exfalso. destruct (leaf_verdict t now old n) as [e|] eqn:Hv.
+    + inversion E; subst. unfold leaf_verdict in Hv.
+      repeat match type of Hv with (if ?b then _ else _) = _ => destruct b end;
+        inversion Hv; subst; destruct Hc as [H|H]; inversion H.
+    + destruct (n_atomic n); [inversion E; subst; destruct Hc as [H|H]; discriminate|].
+      destruct (n_upd old); [inversion E; subst; destruct Hc as [H|H]; discriminate|].
+      match type of E with (if ?b then _ else _) = _ => destruct b end;
+        inversion E; subst; destruct Hc as [H|H]; discriminate.
+  - now inversion E.
+  - destruct (CTreeModel.add (t_tree t) p n); [|now inversion E].
+    inversion E; subst. destruct Hc as [H|H]; discriminate.
+Qed.
+
+(** when is an update refused as a collision: exactly when the tree holds a
+    leaf strictly above the path or a leaf strictly below it *)
+Theorem collision_iff t now n u us p t' r :
+  wf_tree (t_tree t) ->
+  n_upd n = u :: us -> unit_index n = Ok p -> p <> [] -> is_real p = true ->
+  gnmi_update1 t now n = (t', r) ->
+  (collision r <->
+   exists q w, lookup (t_tree t) q = Some w /\ (strict_prefix q p = true \/ strict_prefix p q = true)).
+Proof.
+  intros Hwf Hu Hi Hne Hr E. rewrite (gnmi_update1_real t now n u us p Hu Hi Hne Hr) in E.
+  unfold update_leaf in E.
+  destruct (CTreeModel.get (t_tree t) p) as [[old|cs]|] eqn:Hg.
+  - (* a leaf at p: no collision, and prefix-freeness excludes the right side *)
+    pose proof (proj1 (get_leaf_lookup _ _ _) Hg) as Hl. split.
+    + intros Hc. exfalso. destruct (leaf_verdict t now old n) as [e|] eqn:Hv.
+      * inversion E; subst. unfold leaf_verdict in Hv.
+        repeat match type of Hv with (if ?b then _ else _) = _ => destruct b end;
+          inversion Hv; subst; destruct Hc as [H|H]; inversion H.
+      * destruct (n_atomic n); [inversion E; subst; destruct Hc as [H|H]; discriminate|].
+        destruct (n_upd old); [inversion E; subst; destruct Hc as [H|H]; discriminate|].
+        match type of E with (if ?b then _ else _) = _ => destruct b end;
+          inversion E; subst; destruct Hc as [H|H]; discriminate.
+    + intros (q & w & Hq & [Hs|Hs]); exfalso; apply strict_prefix_spec in Hs as (k & s & ->).
+      * destruct (t_tree t) as [nd|]; [|discriminate]. cbn [lookup] in *.
+        pose proof (lookup_prefix_free nd q (k :: s) w old Hq Hl). discriminate.
+      * destruct (t_tree t) as [nd|]; [|discriminate]. cbn [lookup] in *.
+        pose proof (lookup_prefix_free nd p (k :: s) old w Hl Hq). discriminate.
+  - (* a branch at p *)
+    injection E as Et Er. subst t' r. split; [intros _|intros _; left; reflexivity].
+    destruct (get_branch_inhabited _ _ _ Hwf Hg) as (k & s & v & Hv).
+    exists (p ++ k :: s), v. split; [exact Hv|]. right. apply strict_prefix_spec. eauto.
+  - (* nothing at p: Add decides *)
+    destruct (CTreeModel.add (t_tree t) p n) as [tr'|] eqn:Ha.
+    + inversion E; subst. split; [intros [H|H]; discriminate|].
+      intros (q & w & Hq & Hs). exfalso.
+      destruct (t_tree t) as [nd|] eqn:Ht; [|discriminate]. cbn [CTreeModel.add lookup wf_tree] in *.
+      assert (Hok : add_node nd p n <> None) by (destruct (add_node nd p n); congruence).
+      apply (add_node_ok_iff nd p n Hwf) in Hok. destruct (Hok q w Hq) as [H1 H2].
+      destruct Hs; congruence.
+    + injection E as Et Er. subst t' r. split; [intros _|intros _; right; reflexivity].
+      destruct (t_tree t) as [nd|] eqn:Ht; [|discriminate]. cbn [CTreeModel.add lookup wf_tree] in *.
+      assert (Hno : ~ addable nd p).
+      { intros Hok. apply (add_node_ok_iff nd p n Hwf) in Hok. destruct (add_node nd p n); congruence. }
+      (* classical-free: search the finite set of leaves *)
+      destruct (existsb (fun qv => strict_prefix (fst qv) p || strict_prefix p (fst qv)) (walk_node nd [])) eqn:Hex.
+      * apply existsb_exists in Hex as ([q w] & Hin & Hs). cbn [fst] in Hs.
+        apply (walk_node_spec nd [] q w Hwf) in Hin as (s & Hqs & Hls). cbn [app] in Hqs. subst s.
+        exists q, w. split; [exact Hls|]. apply orb_true_iff in Hs. exact Hs.
+      * exfalso. apply Hno. intros q w Hq.
+        assert (Hin : In (q, w) (walk_node nd [])).
+        { apply (walk_node_spec nd [] q w Hwf). exists q. split; [reflexivity|exact Hq]. }
+        assert (Hf : strict_prefix q p || strict_prefix p q = false).
+        { destruct (strict_prefix q p || strict_prefix p q) eqn:Hb; [|reflexivity].
+          assert (existsb (fun qv => strict_prefix (fst qv) p || strict_prefix p (fst qv)) (walk_node nd []) = true).
+          { apply existsb_exists. exists (q, w). split; [exact Hin|exact Hb]. }
+          congruence. }
+        apply orb_false_iff in Hf. exact Hf.
+Qed.
+
+(** a delete at time T removes exactly the leaves its path matches whose
+    stored timestamp is older than T, hands exactly those to the client, and
+    leaves every other leaf as it was *)
+Theorem delete_exact t n p t' r :
+  wf_tree (t_tree t) -> del_ok n = Some p -> gnmi_remove t n = (t', r) ->
+  (forall s, lookup (t_tree t') s =
+             match lookup (t_tree t) s with
+             | Some v => if qmatch p s && Z.ltb (n_ts v) (n_ts n) then None else Some v
+             | None => None
+             end) /\
+  exists removed, r = Ok removed /\
+    forall v, In v removed <->
+              exists s, lookup (t_tree t) s = Some v /\ qmatch p s = true /\ n_ts v < n_ts n.
+Proof.
+  intros Hwf Hok E. destruct (gnmi_remove_spec _ _ _ _ Hwf E) as (_ & _ & H). rewrite Hok in H.
+  destruct H as (Hl & removed & Hr & Hin). split; [exact Hl|].
+  exists removed. split; [exact Hr|]. intros v. rewrite Hin. unfold older_than.
+  split; intros (s & A & B & C); exists s; repeat split; auto; now apply Z.ltb_lt.
+Qed.
+
+Lemma ts_lat_compute t r ts : t_ts (lat_compute t r ts) = t_ts t.
+Proof. exact (proj1 (frame_lat_compute t r ts)). Qed.
+
+Lemma update_leaf_ts t1 now p u n t2 r : update_leaf t1 now p u n = (t2, r) -> t_ts t2 = t_ts t1.
+Proof.
+  unfold update_leaf. destruct (CTreeModel.get (t_tree t1) p) as [[old|cs]|].
+  - destruct (leaf_verdict t1 now old n); [intros E; inversion E; reflexivity|].
+    destruct (n_atomic n); [intros E; inversion E; now rewrite ts_lat_compute|].
+    destruct (n_upd old); [intros E; inversion E; reflexivity|].
+    match goal with |- (if ?b then _ else _) = _ -> _ => destruct b end;
+      intros E; inversion E; [reflexivity|now rewrite ts_lat_compute].
+  - intros E; inversion E; reflexivity.
+  - destruct (CTreeModel.add (t_tree t1) p n); intros E; inversion E; [|reflexivity].
+    destruct (is_real p); [now rewrite ts_lat_compute|reflexivity].
+Qed.
+
+Lemma gnmi_update1_ts t0 now m t1 r : gnmi_update1 t0 now m = (t1, r) -> t_ts t1 = t_ts t0.
+Proof.
+  unfold gnmi_update1. destruct (n_upd m) as [|u us]; [intros E; now inversion E|].
+  destruct (unit_index m) as [p|e|w]; try (intros E; now inversion E).
+  destruct (update_pre t0 p u) as [t2 r2] eqn:Hp.
+  destruct (update_pre_frame _ _ _ _ _ Hp) as (_ & Hts & _).
+  destruct r2 as [[]|e|w]; try (intros E; inversion E; subst; exact Hts).
+  intros E. apply update_leaf_ts in E. congruence.
+Qed.
+
+Lemma gnmi_remove_ts t0 m t1 r : gnmi_remove t0 m = (t1, r) -> t_ts t1 = t_ts t0.
+Proof.
+  unfold gnmi_remove. destruct (n_del m) as [|d ds]; [intros E; now inversion E|].
+  destruct (join_path (n_prefix m) (Some d)) as [[|p0 prest]|e|w]; try (intros E; now inversion E).
+  destruct (String.eqb p0 md_root); [destruct prest; [intros E; now inversion E|]|];
+    cbv zeta; match goal with |- match ?x with _ => _ end = _ -> _ => destruct x end;
+    intros E; inversion E; reflexivity.
+Qed.
+
+(** the latest accepted timestamp only grows, and only to the timestamp of a
+    notification some unit of which was accepted *)
+Theorem latest_step t now n :
+  let t' := fst (fst (target_gnmi_update t now n)) in
+  t_ts t' = t_ts t \/
+  (t_ts t' = Some (n_ts n) /\ tracks_ts n = true /\
+   match t_ts t with Some z => z < n_ts n | None => True end).
+Proof.
+  cbv zeta.
+  assert (Hfin : forall b t1, t_ts t1 = t_ts t ->
+            t_ts (finish_ts n b t1) = t_ts t \/
+            (t_ts (finish_ts n b t1) = Some (n_ts n) /\ tracks_ts n = true /\
+             match t_ts t with Some z => z < n_ts n | None => True end)).
+  { intros b t1 Ht. unfold finish_ts, check_timestamp. destruct (tracks_ts n); cbn [andb]; [|left; exact Ht].
+    destruct b; [|left; exact Ht]. rewrite Ht. destruct (t_ts t) as [z|] eqn:Hz.
+    - destruct (Z.ltb_spec z (n_ts n)); [right; cbn; auto|left; exact Ht].
+    - right. cbn. auto. }
+  pose proof (fun t0 m t1 r => gnmi_update1_ts t0 now m t1 r) as Hu1.
+  pose proof gnmi_remove_ts as Hrm.
+  assert (Hmu : forall us a, t_ts (a_t (fold_left (multi_update_step now n) us a)) = t_ts (a_t a)).
+  { induction us as [|u us IH]; intros a; cbn [fold_left]; [reflexivity|]. rewrite IH.
+    unfold multi_update_step. destruct (a_panic a); [reflexivity|].
+    destruct (gnmi_update1 (a_t a) now (clone_with_update n u)) as [t1 [[nd|]|e|w]] eqn:E;
+      cbn [a_t]; apply Hu1 in E; exact E. }
+  assert (Hmd : forall ds a, t_ts (a_t (fold_left (multi_delete_step n) ds a)) = t_ts (a_t a)).
+  { induction ds as [|d ds IH]; intros a; cbn [fold_left]; [reflexivity|]. rewrite IH.
+    unfold multi_delete_step. destruct (a_panic a); [reflexivity|].
+    destruct (gnmi_remove _ _) as [t1 [rm|e|w]] eqn:E; cbn [a_t]; apply Hrm in E; exact E. }
+  unfold target_gnmi_update.
+  destruct (n_atomic n).
+  - destruct (n_del n); [|left; reflexivity]. destruct (n_upd n); [left; reflexivity|].
+    destruct (gnmi_update1 t now n) as [t1 [[nd|]|e|w]] eqn:E; cbn [fst]; apply Hu1 in E; apply Hfin; exact E.
+  - destruct (n_upd n) as [|u [|u2 us]]; destruct (n_del n) as [|d [|d2 ds]]; cbn [fst];
+      try (left; reflexivity);
+      try (destruct (gnmi_update1 t now n) as [t1 [[nd|]|e|w]] eqn:E; cbn [fst]; apply Hu1 in E; apply Hfin; exact E);
+      try (destruct (gnmi_remove _ n) as [t1 [rm|e|w]] eqn:E; cbn [fst]; apply Hrm in E; left; exact E);
+      try (apply Hfin; rewrite Hmd, Hmu; reflexivity).
+Qed.
+
+(** * Non-vacuity: concrete instances of the hypotheses above *)
+
+Definition ex_cfg : config := Cfg 2 true [].
+Definition ex_pfx : option gpath := Some (gp_prefix "t" "" ["a"]).
+Definition ex_upd (leaf : string) (ts v : Z) : notif :=
+  Notif ts ex_pfx None [Upd (Some (gp_of_names [leaf])) (Some (TInt v)) 0] [] false.
+Definition ex_del (leaf : string) (ts : Z) : notif :=
+  Notif ts ex_pfx None [] [gp_of_names [leaf]] false.
+Definition ex_multi (ts : Z) : notif :=
+  Notif ts ex_pfx None [Upd (Some (gp_of_names ["b"])) (Some (TInt 5)) 0;
+                        Upd (Some (gp_of_names ["c"])) (Some (TInt 6)) 0] [gp_of_names ["*"]] false.
+Definition ex_t0 : target := new_target "t" ex_cfg.
+Definition ex_t1 : target := trun ex_t0 [(0, ex_upd "b" 2 1)].
+
+(** a history with every kind of event: newer, older, equal-and-different,
+    identical, delete too early, delete, re-add, too far ahead, multi *)
+Definition ex_hist : hist :=
+  [(0, ex_upd "b" 2 1); (0, ex_upd "b" 1 2); (0, ex_upd "b" 2 2); (0, ex_upd "b" 2 2);
+   (0, ex_del "b" 2); (0, ex_del "*" 3); (0, ex_upd "b" 1 1); (0, ex_upd "b" 9 1);
+   (1, ex_multi 3)].
+
+Example ex_hist_clean : clean_history ex_t0 ex_hist.
+Proof. cbv. repeat split; try discriminate; auto. Qed.
+
+Example ex_hist_events :
+  List.length (project ex_t0 ex_hist ["a"; "b"]) = 10%nat /\
+  lookup (t_tree (trun ex_t0 ex_hist)) ["a"; "b"] =
+    Some (clone_with_update (ex_multi 3) (Upd (Some (gp_of_names ["b"])) (Some (TInt 5)) 0)) /\
+  lookup (t_tree (trun ex_t0 (firstn 8 ex_hist))) ["a"; "b"] = Some (ex_upd "b" 1 1).
+Proof. vm_compute. repeat split. Qed.
+
+Example ex_stale_hyps :
+  n_upd (ex_upd "b" 1 2) = [Upd (Some (gp_of_names ["b"])) (Some (TInt 2)) 0] /\
+  unit_index (ex_upd "b" 1 2) = Ok ["a"; "b"] /\ is_real ["a"; "b"] = true /\
+  lookup (t_tree ex_t1) ["a"; "b"] = Some (ex_upd "b" 2 1) /\
+  n_ts (ex_upd "b" 1 2) < n_ts (ex_upd "b" 2 1) /\
+  (n_ts (ex_upd "b" 2 1) = n_ts (ex_upd "b" 2 1) /\ notif_eqb (ex_upd "b" 2 1) (ex_upd "b" 2 1) = true).
+Proof. vm_compute. repeat split; congruence. Qed.
+
+Example ex_equal_ts_hyps :
+  wf_tree (t_tree ex_t1) /\
+  lookup (t_tree ex_t1) ["a"; "b"] = Some (ex_upd "b" 2 1) /\
+  n_ts (ex_upd "b" 2 2) = n_ts (ex_upd "b" 2 1) /\ notif_eqb (ex_upd "b" 2 1) (ex_upd "b" 2 2) = false.
+Proof.
+  split; [|vm_compute; repeat split].
+  unfold ex_t1. pose proof (tstep_spec ex_t0 (0, ex_upd "b" 2 1) I) as H.
+  apply H. cbv. exact I.
+Qed.
+
+Example ex_future_hyps :
+  lookup (t_tree ex_t1) ["a"; "b"] = Some (ex_upd "b" 2 1) /\
+  n_ts (ex_upd "b" 2 1) < n_ts (ex_upd "b" 9 1) /\
+  future_guard (thr_of ex_t1) 0 (t_ts ex_t1) (n_ts (ex_upd "b" 9 1)) = true /\
+  future_guard (thr_of ex_t1) 0 (t_ts ex_t1) (n_ts (ex_upd "b" 4 1)) = false /\
+  future_guard (thr_of ex_t0) 0 (t_ts ex_t0) 9 = false.
+Proof. vm_compute. repeat split. Qed.
+
+Example ex_collision_hyps :
+  unit_index (Notif 5 ex_pfx None [Upd (Some (gp_of_names ["b"; "c"])) (Some (TInt 1)) 0] [] false)
+    = Ok ["a"; "b"; "c"] /\
+  collision (snd (gnmi_update1 ex_t1 0
+     (Notif 5 ex_pfx None [Upd (Some (gp_of_names ["b"; "c"])) (Some (TInt 1)) 0] [] false))) /\
+  collision (snd (gnmi_update1 ex_t1 0
+     (Notif 5 (Some (gp_prefix "t" "" [])) None [Upd (Some (gp_of_names ["a"])) (Some (TInt 1)) 0] [] false))).
+Proof. vm_compute. split; [reflexivity|]. split; [right; reflexivity|left; reflexivity]. Qed.
+
+Example ex_delete_hyps :
+  del_ok (ex_del "*" 3) = Some ["a"; "*"] /\
+  (exists removed, snd (gnmi_remove ex_t1 (ex_del "*" 3)) = Ok removed /\ removed = [ex_upd "b" 2 1]) /\
+  snd (gnmi_remove ex_t1 (ex_del "*" 2)) = Ok [].
+Proof. vm_compute. repeat split. eexists. split; reflexivity. Qed.
+
+Example ex_latest : t_ts ex_t1 = Some 2 /\ t_ts (trun ex_t0 ex_hist) = Some 3.
+Proof. vm_compute. split; reflexivity. Qed.
+
+(** * The executable specification K_P of C02 (C02Check.v) applies the same
+      per-leaf rule as the theorems above *)
+From Gnmi Require Import Cache.C02Check.
+
+Lemma K_future_guard thr now latest ts : sfuture thr now latest ts = future_guard thr now latest ts.
+Proof. reflexivity. Qed.
+
+Lemma K_leaf_rule_sound thr now latest old m :
+  match fst (leaf_update thr now latest old m) with
+  | Some v => Some v
+  | None => old
+  end = spec_leaf_step thr old (LUpd now latest m).
+Proof.
+  unfold leaf_update, spec_leaf_step. destruct old as [o|]; [|reflexivity].
+  rewrite K_future_guard.
+  destruct (Z.ltb (n_ts m) (n_ts o)); [reflexivity|].
+  destruct (Z.eqb (n_ts m) (n_ts o)); [destruct (notif_eqb o m); reflexivity|].
+  destruct (future_guard thr now latest (n_ts m)); reflexivity.
+Qed.
+
+(** ... and reports ErrStale / ErrFuture exactly when the rule keeps the old
+    value for that reason *)
+Lemma K_leaf_class_sound thr now latest o m :
+  snd (leaf_update thr now latest (Some o) m) =
+  if Z.ltb (n_ts m) (n_ts o) then RStale
+  else if Z.eqb (n_ts m) (n_ts o) then (if notif_eqb o m then RStale else ROk)
+  else if future_guard thr now latest (n_ts m) then RFuture else ROk.
+Proof.
+  unfold leaf_update. rewrite K_future_guard.
+  destruct (Z.ltb (n_ts m) (n_ts o)); [reflexivity|].
+  destruct (Z.eqb (n_ts m) (n_ts o)); [destruct (notif_eqb o m); reflexivity|].
+  destruct (future_guard thr now latest (n_ts m)); reflexivity.
+Qed.
+
+(** the delete rule of K_P is [spec_leaf_step] on an [LDel] event *)
+Lemma K_delete_rule_sound thr (p q : path) ts (v : notif) :
+  (if negb (qmatch p q && Z.ltb (n_ts v) ts) then Some v else None) =
+  fold_left (spec_leaf_step thr) (if qmatch p q then [LDel ts] else []) (Some v).
+Proof. destruct (qmatch p q); cbn; [destruct (Z.ltb (n_ts v) ts)|]; reflexivity. Qed.
